@@ -49,6 +49,20 @@ for path in conf:
 left = [l for l in git("status", "--porcelain").stdout.split("\n") if l[:2] in ("UU", "AA", "DU", "UD")]
 if left:
     print("still conflicted:", left); sys.exit(1)
+# extractors live in their own packages: move any go/extract/<x>.go a builder added in the old flat layout
+import glob, shutil
+ex = os.path.join(ROOT, "go", "extract")
+tmpl = os.path.join(ex, "balancer", "main.go")
+for f in glob.glob(os.path.join(ex, "*.go")):
+    stem = os.path.basename(f)[:-3]
+    if stem == "main":
+        os.remove(f); continue
+    os.makedirs(os.path.join(ex, stem), exist_ok=True)
+    shutil.move(f, os.path.join(ex, stem, stem + ".go"))
+    shutil.copy(tmpl, os.path.join(ex, stem, "main.go"))
+    print("moved extractor", stem, "into its own package")
+for f in glob.glob(os.path.join(ex, "*.json")):
+    print("NOTE: data file left in go/extract:", f)
 subprocess.run([sys.executable, os.path.join(ROOT, "tools", "mkmanifest.py")], cwd=ROOT)
 git("add", "-A")
 print(git("commit", "-qm", "merge %s" % br).stdout)
